@@ -370,7 +370,21 @@ func c15Run(c *C) {
 			}
 		}
 	}
-	for o := 0; o < 4; o++ {
+	// templates that live through all four option settings of the case (options are changed between their executions)
+	longSet, _ := newSet(emptySetFiles)
+	longPlain, _ := longSet.FromString(marked)
+	var longChild *pongo2.Template
+	toks2 := append(append([]wsTok{{block: true, inner: "block doc"}}, toks...), wsTok{block: true, inner: "endblock"})
+	if r.Chance(40) {
+		cs, _ := newSet(map[string]string{"/base.tpl": "[{% block doc %}{% endblock %}]", "/child.tpl": "{% extends \"/base.tpl\" %}" + wsSource(toks2, true)})
+		longChild, _ = cs.FromFile("/child.tpl")
+	}
+	order := []int{0, 1, 2, 3}
+	for i := 3; i > 0; i-- {
+		j := r.Intn(i + 1)
+		order[i], order[j] = order[j], order[i]
+	}
+	for _, o := range order {
 		tb, ls := o&1 == 1, o&2 == 2
 		wsStrip(toks, tb, ls)
 		stripped := wsSource(toks, false)
@@ -410,6 +424,34 @@ func c15Run(c *C) {
 			return
 		}
 		c.Cover(fmt.Sprintf("options_tb=%v_ls=%v", tb, ls))
+		if longPlain != nil {
+			// the same compiled template, its options changed since its previous execution
+			longPlain.Options.TrimBlocks, longPlain.Options.LStripBlocks = tb, ls
+			lo, lerr := longPlain.Execute(wsCtx())
+			c.Eval(1)
+			if lerr != nil || lo != direct.String() {
+				d["why"] = "one compiled template executed under changing options: the options of THIS execution apply"
+				d["output_marked"] = q(lo)
+				d["error"] = errStr(lerr)
+				c.Fail("whitespace", d)
+				return
+			}
+		}
+		if longChild != nil {
+			wsStrip(toks2, tb, ls)
+			var direct2 strings.Builder
+			wsDirect(doc, &direct2)
+			longChild.Options.TrimBlocks, longChild.Options.LStripBlocks = tb, ls
+			lo, lerr := longChild.Execute(wsCtx())
+			c.Eval(1)
+			if lerr != nil || lo != "["+direct2.String()+"]" {
+				c.Fail("whitespace", D{"child_source": q("{% extends \"/base.tpl\" %}" + wsSource(toks2, true)), "base_source": "[{% block doc %}{% endblock %}]", "TrimBlocks": tb, "LStripBlocks": ls,
+					"why": "one compiled child template executed under changing options: the options of THIS execution apply to the child's own text", "output": q(lo), "expected_direct": q("[" + direct2.String() + "]"), "error": errStr(lerr)})
+				return
+			}
+			c.Cover("child_options_changed_between_executions")
+			wsStrip(toks, tb, ls)
+		}
 		if r.Chance(30) {
 			// the same document as the body of a block of a child template: the options set on the child template
 			// (the template that is executed) govern the child's own text; the base has no option-sensitive text
